@@ -222,6 +222,14 @@ def run(ctx) -> None:
     rng = ctx.rng
     quick = ctx.tier == "quick"
     keys = [k for k in GENERATORS if k != "convex"]
+    # player counts beyond one block of 2^12 coalitions / beyond 8-bit ids: additive part with DISTINCT stand-alone values
+    for nb in ([9, 13] if ctx.shard % 2 == 0 else [10, 12]) if quick else [9, 10, 11, 12, 13, 14][ctx.shard % 6:][:2]:
+        wts = [float(rng.randint(1, 9) + i) for i in range(nb)]
+        ids = np.arange(1 << nb)
+        pc = np.array([bin(int(x)).count("1") for x in ids])
+        vals = sum(np.where(ids >> i & 1, wts[i], 0.0) for i in range(nb)) + (pc * (pc - 1) / 2.0) * rng.choice([0.5, 1.0, 2.0])
+        run_table_case(ctx, {"family": f"big_n_{nb}", "values": [float(x) for x in vals]})
+        ctx.count("games_with_more_than_8_players")
     i = 0
     while not ctx.out_of_time(1.0):
         i += 1
